@@ -33,6 +33,12 @@ def rand_comment_content(rng: random.Random):
                   'header': rng.choice(['Release notes:', '#define OWNER "x"', 'int injected;',
                                         ['using namespace std;', 'two']])}
         return headed if rng.random() < 0.6 else [rng.choice(HOSTILE), headed]
+    if rng.random() < 0.12:
+        # a rule or a paragraph defined once and used twice
+        rule = [rng.choice(HOSTILE) or '====']
+        para = {'dict': [['a', [rng.choice(HOSTILE), 'x']]]}
+        return rng.choice([[rule, rng.choice(HOSTILE), rule], [para, '', para],
+                           [[rule, 'mid'], [rule]]])
     if r < 0.35:
         return rng.choice(HOSTILE)
     if r < 0.6:
@@ -298,6 +304,7 @@ def _worker(arg):
     seed, chunk_no, count = arg
     rng = random.Random(f'{PROP}:{seed}:{chunk_no}')
     agg = {'violations': [], 'counts': {}, 'cases': []}
+    shared_before = T.SHARING['decoded_with_shared_pieces']
     for _ in range(count):
         case = {'content': rand_comment_content(rng),
                 'how': rng.choice(['ctor', 'ctor', 'append', 'iadd']),
@@ -308,6 +315,8 @@ def _worker(arg):
             agg['counts'][key] = agg['counts'].get(key, 0) + val
         agg['violations'].extend(res['violations'][:2])
         agg['cases'].append((res['digest'], res['nontrivial']))
+    agg['counts']['pieces_that_are_one_object_at_several_places'] = \
+        T.SHARING['decoded_with_shared_pieces'] - shared_before
     agg['sample'] = case
     return agg
 
@@ -318,6 +327,7 @@ def main(tier: str) -> int:
     per = 250 if tier == 'quick' else 2500
     n_pairs = 10 if tier == 'quick' else 200
     run.require('comments_rendered', 'comment_lines_judged', 'content_is_a_headed_text_block',
+                'pieces_that_are_one_object_at_several_places',
                 'content_holds_a_headed_text_block', 'filled_via_iadd', 'filled_via_append', 'with_unusual_separators',
                 'extended_after_render', 'changed_after_render_via_lines-list',
                 'changed_after_render_via_lines-setter', 'changed_after_render_via_trim',
